@@ -419,14 +419,20 @@ func runFree(t *testing.T, c *vCase) (tr *vTrace) {
 		return tr
 	}
 	// let the goroutines release their slots
-	capv := -1
+	capv, same := -1, 0
 	for i := 0; i < 2000; i++ {
 		cv, ok := w.capacity()
 		if !ok {
 			break
 		}
+		if cv == capv {
+			same++
+		} else {
+			same = 0
+		}
 		capv = cv
-		if cv == c.Cfg.Limit {
+		// all slots are back, or the count has stopped moving (every goroutine has ended)
+		if cv == c.Cfg.Limit || same >= 40 {
 			break
 		}
 		time.Sleep(100 * time.Microsecond)
